@@ -1,5 +1,6 @@
 //! C14 — State kinematics and State/Command/Quantity conversions are exact and consistent
-//! (dimension checking ON: debug build).
+//! (judged in every build: debug, release + dim_check_release, and release with dimension checking compiled
+//! out -- see CHECKED for what the unchecked lane skips).
 //!
 //! Sub-checks (stream ids 1401..):
 //!   update          State::update(dt) against an f64 reference with forward error bound; acceleration
@@ -14,6 +15,9 @@
 //!   cmd-conv        Command constructors, accessors, conversions, round trips.
 //!   state-arith     component-wise State arithmetic, exact against the plain f32 operators.
 //!   cmd-arith       Command arithmetic over the 3x3 kind pairs; mixed-kind +/- panics.
+//!   op-matrix       all 52 operator impls involving State / Command / Datum<State> / Datum<Command>
+//!                   (list OP_IMPLS), each against the plain f32 operator, its timestamp rule and its
+//!                   assign/binary sibling; one tally + floor per impl.
 //!   setters-alias / cmd-arith-special / state-arith-special / from-state-tiny / update-grid-dt
 //!                   the same oracles on inputs *related* to the receiver (argument bit-equal to the
 //!                   stored value or to the other operand, +-0, 1, -1, special values, tiny non-zero next
@@ -45,6 +49,22 @@ const KD: f64 = 32.0;
 /// 1e5 s in ns
 const DT_MAX: i64 = 100_000_000_000_000;
 
+/// Lane: is dimension checking compiled into rrtk in this build? Decided at run time (a mismatched
+/// Quantity addition panics iff it is) and cross-checked against the size of Unit and against the cfg
+/// this file uses for the items that only exist in checked builds.
+/// * checked   (debug, or release + dim_check_release): every clause is judged.
+/// * unchecked (release without dim_check_release; Unit is zero-sized, "every unit comparison assumes
+///   ok"): there is no such thing as a wrongly dimensioned argument, so the clauses "wrong unit is
+///   rejected / panics" are not judged (nothing can be rejected), while every argument must be ACCEPTED
+///   and have its documented effect, and kinematics / conversions / arithmetic / mixed-kind panics
+///   (which compare PositionDerivative, not units) are judged exactly as in the checked lanes.
+static CHECKED: std::sync::atomic::AtomicBool = std::sync::atomic::AtomicBool::new(true);
+fn checked() -> bool {
+    CHECKED.load(std::sync::atomic::Ordering::Relaxed)
+}
+/// compile-time twin of `checked()`: the harness feature dim_release forwards rrtk/dim_check_release and
+/// debug_assertions is the same profile switch for both crates (rrtk's default dim_check_debug)
+const CHECKED_CFG: bool = cfg!(any(feature = "dim_release", debug_assertions));
 fn u(m: i32, s: i32) -> Unit {
     Unit::new(m as i8, s as i8)
 }
@@ -133,7 +153,8 @@ fn c_is(c: &Command, kind: usize, x: f32) -> bool {
     k == kind && same(v, x)
 }
 fn q_is(q: &Quantity, x: f32, e: (i32, i32)) -> bool {
-    same(q.value, x) && q.unit == u(e.0, e.1)
+    // eq_assume_true is const_eq when dimension checking is compiled in and `true` when Unit is zero-sized
+    same(q.value, x) && q.unit.eq_assume_true(&u(e.0, e.1))
 }
 fn dt_class(dt_ns: i64) -> (i8, u8) {
     let sign = dt_ns.signum() as i8;
@@ -292,7 +313,8 @@ fn check_setters(rep: &mut Report, sub: &'static str, case: u64, rng: &mut Rng, 
 fn check_one_setter(rep: &mut Report, sub: &'static str, case: u64, which: usize, s0: State, x: f32, e: (i32, i32)) {
     let name = ["set_constant_position", "set_constant_velocity", "set_constant_acceleration"][which];
     let q = Quantity::new(x, u(e.0, e.1));
-    let want_ok = e == EXPS[which];
+    // unchecked lane: the unit carries no information, every argument is well dimensioned and must be accepted
+    let want_ok = !checked() || e == EXPS[which];
     let got = catch(|| {
         let mut s = s0;
         let r = match which {
@@ -403,7 +425,7 @@ fn check_setter_alias(rep: &mut Report, sub: &'static str, case: u64, rng: &mut 
 
 // --------------------------------------------------------------------------------- State::new
 fn check_state_new(rep: &mut Report, sub: &'static str, case: u64, vals: [f32; 3], es: [(i32, i32); 3]) {
-    let want_panic = (0..3).any(|i| es[i] != EXPS[i]);
+    let want_panic = checked() && (0..3).any(|i| es[i] != EXPS[i]);
     let qs: Vec<Quantity> = (0..3).map(|i| Quantity::new(vals[i], u(es[i].0, es[i].1))).collect();
     let got = catch(|| State::new(qs[0], qs[1], qs[2]));
     let wrong: Vec<usize> = (0..3).filter(|&i| es[i] != EXPS[i]).collect();
@@ -493,6 +515,15 @@ fn check_from_state(rep: &mut Report, sub: &'static str, case: u64, s: State) {
 }
 
 // --------------------------------------------------------------------------- Command conversions
+/// `impl TryFrom<Quantity> for Command` only exists when dimension checking is compiled in.
+#[cfg(any(feature = "dim_release", debug_assertions))]
+fn try_from_q(q: Quantity) -> Option<Result<Command, ()>> {
+    Some(Command::try_from(q))
+}
+#[cfg(not(any(feature = "dim_release", debug_assertions)))]
+fn try_from_q(_q: Quantity) -> Option<Result<Command, ()>> {
+    None
+}
 fn check_cmd_conv(rep: &mut Report, sub: &'static str, case: u64, kind: usize, x: f32) {
     let e = EXPS[kind];
     rep.distinct(("cmd-conv", kind, cls(x), x.abs() > 1e30, x != 0.0 && x.abs() < 1e-30));
@@ -506,8 +537,8 @@ fn check_cmd_conv(rep: &mut Report, sub: &'static str, case: u64, kind: usize, x
             f32::from(c),
             PositionDerivative::from(c),
             q,
-            Command::try_from(q),
-            Command::try_from(Quantity::new(x, u(e.0, e.1))),
+            try_from_q(q),
+            try_from_q(Quantity::new(x, u(e.0, e.1))),
             c.get_position(),
             c.get_velocity(),
             c.get_acceleration(),
@@ -534,8 +565,10 @@ fn check_cmd_conv(rep: &mut Report, sub: &'static str, case: u64, kind: usize, x
     chk(same(raw, x), "f32-from", format!("f32::from = {}", f(raw)));
     chk(pd == PDS[kind], "kind", format!("PositionDerivative::from = {:?}", pd));
     chk(q_is(&q, x, e), "quantity-from", format!("Quantity::from = {:?}, expected value {} unit mm^{} s^{}", q, f(x), e.0, e.1));
-    chk(matches!(&back, Ok(b) if c_is(b, kind, x)), "roundtrip-quantity", format!("Command::try_from(Quantity::from(c)) = {:?}", back));
-    chk(matches!(&back2, Ok(b) if c_is(b, kind, x)), "try-from-quantity", format!("Command::try_from(Quantity({}, mm^{} s^{})) = {:?}", f(x), e.0, e.1, back2));
+    if CHECKED_CFG {
+        chk(matches!(&back, Some(Ok(b)) if c_is(b, kind, x)), "roundtrip-quantity", format!("Command::try_from(Quantity::from(c)) = {:?}", back));
+        chk(matches!(&back2, Some(Ok(b)) if c_is(b, kind, x)), "try-from-quantity", format!("Command::try_from(Quantity({}, mm^{} s^{})) = {:?}", f(x), e.0, e.1, back2));
+    }
     // accessor table
     let gp_ok = match (kind, &gp) {
         (0, Some(q)) => q_is(q, x, EXPS[0]),
@@ -649,16 +682,217 @@ fn check_cmd_arith(rep: &mut Report, sub: &'static str, case: u64, ki: usize, kj
     }
 }
 
+
+// ------------------------------------------------------------------- operator matrix (every impl)
+// Every operator impl of the crate whose Self or right-hand side involves State or Command, found by
+// reading src/state.rs, src/command.rs, src/datum.rs (generic Datum<T> impls instantiated at T = State /
+// Command, plus the special cases for the f32 scalars) and src/lib.rs (none there). 52 impls:
+//   State:          Neg, Add, Sub, Mul<f32>, Div<f32>, AddAssign, SubAssign, MulAssign<f32>, DivAssign<f32>      (9)
+//   Command:        Neg, Add, Sub, Mul<f32>, Div<f32>, AddAssign, SubAssign, MulAssign<f32>, DivAssign<f32>      (9)
+//   Datum<State>:   Neg, Add<Datum<State>>, AddAssign<Datum<State>>, Add<State>, AddAssign<State>,
+//                   Sub<Datum<State>>, SubAssign<Datum<State>>, Sub<State>, SubAssign<State>,
+//                   Mul<Datum<f32>>, MulAssign<Datum<f32>>, Mul<f32>, MulAssign<f32>,
+//                   Div<Datum<f32>>, DivAssign<Datum<f32>>, Div<f32>, DivAssign<f32>                              (17)
+//   Datum<Command>: the same 17 with Command for State.
+// There are no Quantity right-hand sides and no by-reference (&T) operator impls for these types, and
+// State/Command have no Mul/Div by their own type, so the generic Datum<T> * Datum<T>, Datum<T> * T forms
+// do not exist for them. OP_IMPLS below is that list; each entry has a tally `impl/<name>` and a floor.
+// Oracle: value = the plain f32 operator applied component-wise (canonical bits); Command +/- of different
+// kinds panics (also inside a Datum); timestamp = the left operand's for bare / scalar right-hand sides
+// and the newest of the two for Datum right-hand sides; the assign form equals the binary form.
+const OP_IMPLS: [&str; 52] = [
+    "State.neg()", "State.add(State)", "State.sub(State)", "State.mul(f32)", "State.div(f32)",
+    "State.add_assign(State)", "State.sub_assign(State)", "State.mul_assign(f32)", "State.div_assign(f32)",
+    "Command.neg()", "Command.add(Command)", "Command.sub(Command)", "Command.mul(f32)", "Command.div(f32)",
+    "Command.add_assign(Command)", "Command.sub_assign(Command)", "Command.mul_assign(f32)", "Command.div_assign(f32)",
+    "Datum<State>.neg()", "Datum<State>.add(Datum<State>)", "Datum<State>.add_assign(Datum<State>)", "Datum<State>.add(State)", "Datum<State>.add_assign(State)",
+    "Datum<State>.sub(Datum<State>)", "Datum<State>.sub_assign(Datum<State>)", "Datum<State>.sub(State)", "Datum<State>.sub_assign(State)",
+    "Datum<State>.mul(Datum<f32>)", "Datum<State>.mul_assign(Datum<f32>)", "Datum<State>.mul(f32)", "Datum<State>.mul_assign(f32)",
+    "Datum<State>.div(Datum<f32>)", "Datum<State>.div_assign(Datum<f32>)", "Datum<State>.div(f32)", "Datum<State>.div_assign(f32)",
+    "Datum<Command>.neg()", "Datum<Command>.add(Datum<Command>)", "Datum<Command>.add_assign(Datum<Command>)", "Datum<Command>.add(Command)", "Datum<Command>.add_assign(Command)",
+    "Datum<Command>.sub(Datum<Command>)", "Datum<Command>.sub_assign(Datum<Command>)", "Datum<Command>.sub(Command)", "Datum<Command>.sub_assign(Command)",
+    "Datum<Command>.mul(Datum<f32>)", "Datum<Command>.mul_assign(Datum<f32>)", "Datum<Command>.mul(f32)", "Datum<Command>.mul_assign(f32)",
+    "Datum<Command>.div(Datum<f32>)", "Datum<Command>.div_assign(Datum<f32>)", "Datum<Command>.div(f32)", "Datum<Command>.div_assign(f32)",
+];
+/// (binary form, assign form) siblings: x op= y must equal x = x op y
+const OP_SIBLINGS: [(&str, &str); 24] = [
+    ("State.add(State)", "State.add_assign(State)"), ("State.sub(State)", "State.sub_assign(State)"),
+    ("State.mul(f32)", "State.mul_assign(f32)"), ("State.div(f32)", "State.div_assign(f32)"),
+    ("Command.add(Command)", "Command.add_assign(Command)"), ("Command.sub(Command)", "Command.sub_assign(Command)"),
+    ("Command.mul(f32)", "Command.mul_assign(f32)"), ("Command.div(f32)", "Command.div_assign(f32)"),
+    ("Datum<State>.add(Datum<State>)", "Datum<State>.add_assign(Datum<State>)"), ("Datum<State>.add(State)", "Datum<State>.add_assign(State)"),
+    ("Datum<State>.sub(Datum<State>)", "Datum<State>.sub_assign(Datum<State>)"), ("Datum<State>.sub(State)", "Datum<State>.sub_assign(State)"),
+    ("Datum<State>.mul(Datum<f32>)", "Datum<State>.mul_assign(Datum<f32>)"), ("Datum<State>.mul(f32)", "Datum<State>.mul_assign(f32)"),
+    ("Datum<State>.div(Datum<f32>)", "Datum<State>.div_assign(Datum<f32>)"), ("Datum<State>.div(f32)", "Datum<State>.div_assign(f32)"),
+    ("Datum<Command>.add(Datum<Command>)", "Datum<Command>.add_assign(Datum<Command>)"), ("Datum<Command>.add(Command)", "Datum<Command>.add_assign(Command)"),
+    ("Datum<Command>.sub(Datum<Command>)", "Datum<Command>.sub_assign(Datum<Command>)"), ("Datum<Command>.sub(Command)", "Datum<Command>.sub_assign(Command)"),
+    ("Datum<Command>.mul(Datum<f32>)", "Datum<Command>.mul_assign(Datum<f32>)"), ("Datum<Command>.mul(f32)", "Datum<Command>.mul_assign(f32)"),
+    ("Datum<Command>.div(Datum<f32>)", "Datum<Command>.div_assign(Datum<f32>)"), ("Datum<Command>.div(f32)", "Datum<Command>.div_assign(f32)"),
+];
+/// canonical observation of one operator result: None = panicked; (time or 0, kind or 9, value bits)
+type Obs = Option<(i64, u32, [u32; 3])>;
+struct Mx<'a> {
+    rep: &'a mut Report,
+    case: u64,
+    desc: String,
+    seen: std::collections::BTreeMap<&'static str, Obs>,
+}
+fn st_obs(t: i64, s: &State) -> Obs {
+    Some((t, 9, [cbits(s.position), cbits(s.velocity), cbits(s.acceleration)]))
+}
+fn cm_obs(t: i64, c: &Command) -> Obs {
+    let (k, x) = cparts(c);
+    Some((t, k as u32, [cbits(x), 0, 0]))
+}
+impl Mx<'_> {
+    fn judge(&mut self, name: &'static str, got: Obs, got_txt: String, want: Obs, want_txt: String) {
+        debug_assert!(OP_IMPLS.contains(&name));
+        self.rep.eval();
+        self.rep.tally(&format!("impl/{}", name));
+        self.seen.insert(name, got);
+        match (got, want) {
+            (None, None) => self.rep.tally("op_matrix_mixed_kind_panics_observed"),
+            (None, Some(_)) => self.rep.violation(&format!("C14/op/{}/unexpected-panic", name), "op-matrix", self.case, format!("{} [{}] panicked ({}), expected {}", name, self.desc, got_txt, want_txt)),
+            (Some(_), None) => self.rep.violation(&format!("C14/op/{}/missing-panic", name), "op-matrix", self.case, format!("{} [{}] -> {} without panic although the command kinds differ", name, self.desc, got_txt)),
+            (Some(g), Some(w)) => {
+                if g.1 != w.1 || g.2 != w.2 {
+                    self.rep.violation(&format!("C14/op/{}/value", name), "op-matrix", self.case, format!("{} [{}] -> {}, expected {}", name, self.desc, got_txt, want_txt));
+                }
+                if g.0 != w.0 {
+                    self.rep.violation(&format!("C14/op/{}/time", name), "op-matrix", self.case, format!("{} [{}] -> {}, expected {}", name, self.desc, got_txt, want_txt));
+                }
+            }
+        }
+    }
+    fn st(&mut self, name: &'static str, got: Result<State, String>, want: State) {
+        let (o, txt) = match &got { Ok(s) => (st_obs(0, s), sfmt(s)), Err(m) => (None, m.clone()) };
+        self.judge(name, o, txt, st_obs(0, &want), sfmt(&want));
+    }
+    fn dst(&mut self, name: &'static str, got: Result<Datum<State>, String>, want: State, wt: i64) {
+        let (o, txt) = match &got { Ok(d) => (st_obs(d.time.0, &d.value), format!("t={} {}", d.time.0, sfmt(&d.value))), Err(m) => (None, m.clone()) };
+        self.judge(name, o, txt, st_obs(wt, &want), format!("t={} {}", wt, sfmt(&want)));
+    }
+    fn cm(&mut self, name: &'static str, got: Result<Command, String>, want: Option<Command>) {
+        let (o, txt) = match &got { Ok(c) => (cm_obs(0, c), cfmt(c)), Err(m) => (None, m.clone()) };
+        let (w, wtxt) = match &want { Some(c) => (cm_obs(0, c), cfmt(c)), None => (None, "a panic".to_string()) };
+        self.judge(name, o, txt, w, wtxt);
+    }
+    fn dcm(&mut self, name: &'static str, got: Result<Datum<Command>, String>, want: Option<Command>, wt: i64) {
+        let (o, txt) = match &got { Ok(d) => (cm_obs(d.time.0, &d.value), format!("t={} {}", d.time.0, cfmt(&d.value))), Err(m) => (None, m.clone()) };
+        let (w, wtxt) = match &want { Some(c) => (cm_obs(wt, c), format!("t={} {}", wt, cfmt(c))), None => (None, "a panic".to_string()) };
+        self.judge(name, o, txt, w, wtxt);
+    }
+}
+#[allow(clippy::too_many_arguments)]
+fn check_op_matrix(rep: &mut Report, case: u64, a: State, b: State, ki: usize, kj: usize, x: f32, y: f32, k: f32, t1: i64, t2: i64) {
+    let desc = format!("a={} b={} ca={} cb={} k={} t_lhs={} t_rhs={}", sfmt(&a), sfmt(&b), cfmt(&mk(ki, x)), cfmt(&mk(kj, y)), f(k), t1, t2);
+    let mut mx = Mx { rep, case, desc, seen: Default::default() };
+    let newest = t1.max(t2);
+    let m2 = |op: fn(f32, f32) -> f32| State::new_raw(op(a.position, b.position), op(a.velocity, b.velocity), op(a.acceleration, b.acceleration));
+    let m1 = |op: &dyn Fn(f32) -> f32| State::new_raw(op(a.position), op(a.velocity), op(a.acceleration));
+    let (s_neg, s_add, s_sub, s_mul, s_div) = (m1(&|v| -v), m2(|p, q| p + q), m2(|p, q| p - q), m1(&|v| v * k), m1(&|v| v / k));
+    let (ca, cb) = (mk(ki, x), mk(kj, y));
+    let same_kind = ki == kj;
+    let c_neg = Some(mk(ki, -x));
+    let c_add = if same_kind { Some(mk(ki, x + y)) } else { None };
+    let c_sub = if same_kind { Some(mk(ki, x - y)) } else { None };
+    let c_mul = Some(mk(ki, x * k));
+    let c_div = Some(mk(ki, x / k));
+    let (da, db) = (Datum::new(Time(t1), a), Datum::new(Time(t2), b));
+    let (dca, dcb) = (Datum::new(Time(t1), ca), Datum::new(Time(t2), cb));
+    let dk = Datum::new(Time(t2), k);
+    // ---- State
+    mx.st("State.neg()", catch(|| -a), s_neg);
+    mx.st("State.add(State)", catch(|| a + b), s_add);
+    mx.st("State.sub(State)", catch(|| a - b), s_sub);
+    mx.st("State.mul(f32)", catch(|| a * k), s_mul);
+    mx.st("State.div(f32)", catch(|| a / k), s_div);
+    mx.st("State.add_assign(State)", catch(|| { let mut v = a; v += b; v }), s_add);
+    mx.st("State.sub_assign(State)", catch(|| { let mut v = a; v -= b; v }), s_sub);
+    mx.st("State.mul_assign(f32)", catch(|| { let mut v = a; v *= k; v }), s_mul);
+    mx.st("State.div_assign(f32)", catch(|| { let mut v = a; v /= k; v }), s_div);
+    // ---- Command
+    mx.cm("Command.neg()", catch(|| -ca), c_neg);
+    mx.cm("Command.add(Command)", catch(|| ca + cb), c_add);
+    mx.cm("Command.sub(Command)", catch(|| ca - cb), c_sub);
+    mx.cm("Command.mul(f32)", catch(|| ca * k), c_mul);
+    mx.cm("Command.div(f32)", catch(|| ca / k), c_div);
+    mx.cm("Command.add_assign(Command)", catch(|| { let mut v = ca; v += cb; v }), c_add);
+    mx.cm("Command.sub_assign(Command)", catch(|| { let mut v = ca; v -= cb; v }), c_sub);
+    mx.cm("Command.mul_assign(f32)", catch(|| { let mut v = ca; v *= k; v }), c_mul);
+    mx.cm("Command.div_assign(f32)", catch(|| { let mut v = ca; v /= k; v }), c_div);
+    // ---- Datum<State>
+    mx.dst("Datum<State>.neg()", catch(|| -da), s_neg, t1);
+    mx.dst("Datum<State>.add(Datum<State>)", catch(|| da + db), s_add, newest);
+    mx.dst("Datum<State>.add_assign(Datum<State>)", catch(|| { let mut v = da; v += db; v }), s_add, newest);
+    mx.dst("Datum<State>.add(State)", catch(|| da + b), s_add, t1);
+    mx.dst("Datum<State>.add_assign(State)", catch(|| { let mut v = da; v += b; v }), s_add, t1);
+    mx.dst("Datum<State>.sub(Datum<State>)", catch(|| da - db), s_sub, newest);
+    mx.dst("Datum<State>.sub_assign(Datum<State>)", catch(|| { let mut v = da; v -= db; v }), s_sub, newest);
+    mx.dst("Datum<State>.sub(State)", catch(|| da - b), s_sub, t1);
+    mx.dst("Datum<State>.sub_assign(State)", catch(|| { let mut v = da; v -= b; v }), s_sub, t1);
+    mx.dst("Datum<State>.mul(Datum<f32>)", catch(|| da * dk), s_mul, newest);
+    mx.dst("Datum<State>.mul_assign(Datum<f32>)", catch(|| { let mut v = da; v *= dk; v }), s_mul, newest);
+    mx.dst("Datum<State>.mul(f32)", catch(|| da * k), s_mul, t1);
+    mx.dst("Datum<State>.mul_assign(f32)", catch(|| { let mut v = da; v *= k; v }), s_mul, t1);
+    mx.dst("Datum<State>.div(Datum<f32>)", catch(|| da / dk), s_div, newest);
+    mx.dst("Datum<State>.div_assign(Datum<f32>)", catch(|| { let mut v = da; v /= dk; v }), s_div, newest);
+    mx.dst("Datum<State>.div(f32)", catch(|| da / k), s_div, t1);
+    mx.dst("Datum<State>.div_assign(f32)", catch(|| { let mut v = da; v /= k; v }), s_div, t1);
+    // ---- Datum<Command>
+    mx.dcm("Datum<Command>.neg()", catch(|| -dca), c_neg, t1);
+    mx.dcm("Datum<Command>.add(Datum<Command>)", catch(|| dca + dcb), c_add, newest);
+    mx.dcm("Datum<Command>.add_assign(Datum<Command>)", catch(|| { let mut v = dca; v += dcb; v }), c_add, newest);
+    mx.dcm("Datum<Command>.add(Command)", catch(|| dca + cb), c_add, t1);
+    mx.dcm("Datum<Command>.add_assign(Command)", catch(|| { let mut v = dca; v += cb; v }), c_add, t1);
+    mx.dcm("Datum<Command>.sub(Datum<Command>)", catch(|| dca - dcb), c_sub, newest);
+    mx.dcm("Datum<Command>.sub_assign(Datum<Command>)", catch(|| { let mut v = dca; v -= dcb; v }), c_sub, newest);
+    mx.dcm("Datum<Command>.sub(Command)", catch(|| dca - cb), c_sub, t1);
+    mx.dcm("Datum<Command>.sub_assign(Command)", catch(|| { let mut v = dca; v -= cb; v }), c_sub, t1);
+    mx.dcm("Datum<Command>.mul(Datum<f32>)", catch(|| dca * dk), c_mul, newest);
+    mx.dcm("Datum<Command>.mul_assign(Datum<f32>)", catch(|| { let mut v = dca; v *= dk; v }), c_mul, newest);
+    mx.dcm("Datum<Command>.mul(f32)", catch(|| dca * k), c_mul, t1);
+    mx.dcm("Datum<Command>.mul_assign(f32)", catch(|| { let mut v = dca; v *= k; v }), c_mul, t1);
+    mx.dcm("Datum<Command>.div(Datum<f32>)", catch(|| dca / dk), c_div, newest);
+    mx.dcm("Datum<Command>.div_assign(Datum<f32>)", catch(|| { let mut v = dca; v /= dk; v }), c_div, newest);
+    mx.dcm("Datum<Command>.div(f32)", catch(|| dca / k), c_div, t1);
+    mx.dcm("Datum<Command>.div_assign(f32)", catch(|| { let mut v = dca; v /= k; v }), c_div, t1);
+    // ---- siblings: x op= y is x = x op y
+    for (bin, asg) in OP_SIBLINGS.iter() {
+        mx.rep.eval();
+        match (mx.seen.get(bin), mx.seen.get(asg)) {
+            (Some(p), Some(q)) => {
+                if p != q {
+                    mx.rep.violation(&format!("C14/op/{}/differs-from-binary-form", asg), "op-matrix", case, format!("[{}] {} gave {:x?} but {} gave {:x?} (time, kind, canonical value bits)", mx.desc, bin, p, asg, q));
+                }
+            }
+            _ => mx.rep.violation("C14/op/sibling-table", "op-matrix", case, format!("form {} or {} was not executed", bin, asg)),
+        }
+    }
+    if mx.seen.len() == OP_IMPLS.len() {
+        mx.rep.tally("op_matrix_all_52_impls_executed");
+    }
+    if mx.rep.want_sample("op-matrix") {
+        let d = mx.desc.clone();
+        mx.rep.sample("op-matrix", format!("{}: all 52 operator impls", d));
+    }
+}
+
 fn main() {
     let args = Args::parse();
     let mut rep = Report::new("C14", &args);
-    if core::mem::size_of::<Unit>() == 0 {
-        // dimension checking compiled out: the setter / State::new clauses would be vacuous
-        rep.floor("dimension_checking_enabled", 1);
-        rep.finish(&args);
+    // ---- lane detection (see CHECKED)
+    let runtime_checked = catch(|| Quantity::new(1.0, u(1, 0)) + Quantity::new(1.0, u(0, 1))).is_err();
+    CHECKED.store(runtime_checked, std::sync::atomic::Ordering::Relaxed);
+    rep.tally(if runtime_checked { "lane/checked" } else { "lane/unchecked" });
+    if runtime_checked == (core::mem::size_of::<Unit>() != 0) && runtime_checked == CHECKED_CFG {
+        rep.tally("lane/detection_consistent");
     }
-    rep.tally("dimension_checking_enabled");
-    rep.floor("dimension_checking_enabled", 1);
+    // run-time probe, size_of::<Unit>() and this file's cfg must tell the same story, else INCONCLUSIVE
+    rep.floor("lane/detection_consistent", 1);
+    if runtime_checked {
+        rep.tally("dimension_checking_enabled");
+    }
 
     // ---- 1. kinematics with finite intermediates
     for case in args.cases("update", 300_000, 12_000_000) {
@@ -993,15 +1227,75 @@ fn main() {
         }
     }
 
+    // ---- 14. operator matrix: all 52 operator impls involving State / Command / Datum<State> /
+    // Datum<Command> on one operand set per case; operands random or related (b = a, -a, zeros; rhs
+    // command value bit-equal to the lhs; coefficient in {special, 1, 0, -0, -1, 2, own value, random});
+    // kinds: every 3x3 pair (case % 9); timestamps only compared (equal, older, newer by quota)
+    for case in args.cases("op-matrix", 27_000, 1_350_000) {
+        let mut rng = Rng::new(args.seed, 1417, case);
+        let (ki, kj) = ((case % 3) as usize, (case / 3 % 3) as usize);
+        let mag = if rng.chance(0.5) { Mag::Any } else { Mag::Moderate };
+        let a = gen_state(&mut rng, mag);
+        let b = match rng.below(6) {
+            0 => a,
+            1 => State::new_raw(-a.position, -a.velocity, -a.acceleration),
+            2 => State::new_raw(0.0, -0.0, 0.0),
+            _ => gen_state(&mut rng, mag),
+        };
+        let x = match rng.below(4) {
+            0 => rng.special(),
+            1 => comp(&mut rng, Mag::Moderate),
+            _ => rng.any_finite(),
+        };
+        let y = match rng.below(6) {
+            0 => x,
+            1 => -x,
+            2 => rng.special(),
+            _ => rng.any_finite(),
+        };
+        let k = match rng.below(10) {
+            0 => rng.special(),
+            1 => 1.0,
+            2 => 0.0,
+            3 => -0.0,
+            4 => -1.0,
+            5 => 2.0,
+            6 => x,
+            _ => rng.any_finite(),
+        };
+        let t1 = rng.stamp();
+        let tcls = case / 9 % 3;
+        let t2 = match tcls {
+            0 => t1,
+            1 => t1.saturating_add(rng.range_i64(1, 1 << 40)),
+            _ => t1.saturating_sub(rng.range_i64(1, 1 << 40)),
+        };
+        rep.distinct(("op-matrix", ki, kj, tcls, scls(&a), cls(k)));
+        rep.tally(["op_matrix_rhs_time_equal", "op_matrix_rhs_time_newer", "op_matrix_rhs_time_older"][tcls as usize]);
+        check_op_matrix(&mut rep, case, a, b, ki, kj, x, y, k, t1, t2);
+    }
+    rep.exhaustive("operator matrix: all 52 operator impls with State/Command/Datum<State>/Datum<Command> (list OP_IMPLS in c14.rs) x 3x3 command kind pairs x rhs timestamp {equal, newer, older}");
+    for name in OP_IMPLS.iter() {
+        rep.floor(&format!("impl/{}", name), 20_000);
+    }
+    rep.floor("op_matrix_all_52_impls_executed", 20_000);
+    rep.floor("op_matrix_mixed_kind_panics_observed", 100_000);
+    rep.floor("op_matrix_rhs_time_newer", 5_000);
+    rep.floor("op_matrix_rhs_time_older", 5_000);
+
     // floors (merged tallies; met by quota for every seed: dt classes are case % 10, units /
     // patterns / kind pairs are enumerated)
     rep.floor("update_dt-zero", 30_000);
     rep.floor("update_dt-negative", 100_000);
     rep.floor("update_dt-positive", 100_000);
     rep.floor("setter_accepted", 1_200);
-    rep.floor("setter_rejected", 50_000);
+    if checked() {
+        rep.floor("setter_rejected", 50_000);
+    }
     rep.floor("setter_raw", 50_000);
-    rep.floor("state_new_panics_observed", 8_000);
+    if checked() {
+        rep.floor("state_new_panics_observed", 8_000);
+    }
     rep.floor("state_new_ok", 3_000);
     rep.floor("from_state_position", 9_000);
     rep.floor("from_state_velocity", 9_000);
